@@ -27,67 +27,78 @@ Requests == {[id |-> 1, fp |-> TRUE,  an |-> FALSE], [id |-> 2, fp |-> FALSE, an
              [id |-> 7, fp |-> TRUE,  an |-> FALSE], [id |-> 8, fp |-> FALSE, an |-> FALSE]}
 NoReq == [id |-> 0, fp |-> FALSE, an |-> FALSE]
 
-VARIABLES vthreads, vnumba, vcompiled, vmgr, vfftw, vcreated, vpc, vreq, vkernel, vfftthreads, vhist, vres
+VARIABLES vthreads, vnumba, vcompiled, vmgr, vfftw, vcreated, vpc, vreq, vkernel, vfftthreads, vhist, vres,
+          vwis,       \* the wisdom file in the working directory: "missing" | "ok" | "corrupt"
+          vwisload    \* outcome of the last wisdom load ("none" | "loaded" | "skipped" | "ignored"): every manager creation reloads it
 
-rvars == <<vthreads, vnumba, vcompiled, vmgr, vfftw, vcreated, vpc, vreq, vkernel, vfftthreads, vhist, vres>>
+rvars == <<vthreads, vnumba, vcompiled, vmgr, vfftw, vcreated, vpc, vreq, vkernel, vfftthreads, vhist, vres, vwis, vwisload>>
 \* behaviour-relevant part of the state (history and creation counter are observations)
-View == <<vthreads, vnumba, vcompiled, vmgr, vfftw, vpc, vreq, vkernel, vfftthreads, vres>>
+View == <<vthreads, vnumba, vcompiled, vmgr, vfftw, vpc, vreq, vkernel, vfftthreads, vres, vwis>>
 
 Init == /\ vthreads = 1 /\ vnumba = 0 /\ vcompiled = {} /\ vmgr = 0 /\ vfftw = 1 /\ vcreated = 0
         /\ vpc = "idle" /\ vreq = NoReq /\ vkernel = FALSE /\ vfftthreads = << >> /\ vhist = << >> /\ vres = <<0, FALSE, << >>>>
+        /\ vwis = "missing" /\ vwisload = "none"
 
 \* get_fft_manager(num_threads = n)
+\* a creation loads the wisdom file; a missing file is skipped and an unreadable one ignored - never an error
 Ensure(n) == IF vmgr = 0 \/ (vmgr # n /\ ~StickyManager)
-             THEN vmgr' = n /\ vfftw' = n /\ vcreated' = vcreated + 1
-             ELSE UNCHANGED <<vmgr, vfftw, vcreated>>
+             THEN /\ vmgr' = n /\ vfftw' = n /\ vcreated' = vcreated + 1
+                  /\ vwisload' = CASE vwis = "ok" -> "loaded" [] vwis = "missing" -> "skipped" [] OTHER -> "ignored"
+             ELSE UNCHANGED <<vmgr, vfftw, vcreated, vwisload>>
 
 Idle == vpc = "idle" /\ Len(vhist) < MaxOps
 
 SetThreads(n) == /\ Idle /\ n # vthreads                                     \* bldfm.config.NUM_THREADS = n
                  /\ vthreads' = n /\ vhist' = Append(vhist, <<"threads", n>>) /\ vres' = <<0, FALSE, << >>>>
-                 /\ UNCHANGED <<vnumba, vcompiled, vmgr, vfftw, vcreated, vpc, vreq, vkernel, vfftthreads>>
+                 /\ UNCHANGED <<vnumba, vcompiled, vmgr, vfftw, vcreated, vpc, vreq, vkernel, vfftthreads, vwis, vwisload>>
+
+\* the environment replaces, corrupts or deletes fftw_wisdom.pkl between calls
+Wisdom(w) ==     /\ Idle /\ w # vwis
+                 /\ vwis' = w /\ vhist' = Append(vhist, <<"wisdom", w>>) /\ vres' = <<0, FALSE, << >>>>
+                 /\ UNCHANGED <<vthreads, vnumba, vcompiled, vmgr, vfftw, vcreated, vpc, vreq, vkernel, vfftthreads, vwisload>>
 
 ResetFFT ==      /\ Idle /\ vmgr # 0                                         \* reset_fft_manager()
                  /\ vmgr' = 0 /\ vhist' = Append(vhist, <<"reset", 0>>) /\ vres' = <<0, FALSE, << >>>>
-                 /\ UNCHANGED <<vthreads, vnumba, vcompiled, vfftw, vcreated, vpc, vreq, vkernel, vfftthreads>>
+                 /\ UNCHANGED <<vthreads, vnumba, vcompiled, vfftw, vcreated, vpc, vreq, vkernel, vfftthreads, vwis, vwisload>>
 
 Begin(r) ==      /\ Idle                                                     \* enter the solver
                  /\ vreq' = r /\ vpc' = "source" /\ vfftthreads' = << >> /\ vkernel' = FALSE /\ vres' = <<0, FALSE, << >>>>
                  /\ vhist' = Append(vhist, <<"solve", r.id>>)
-                 /\ UNCHANGED <<vthreads, vnumba, vcompiled, vmgr, vfftw, vcreated>>
+                 /\ UNCHANGED <<vthreads, vnumba, vcompiled, vmgr, vfftw, vcreated, vwis, vwisload>>
 
 SourceFFT ==     /\ vpc = "source"                                           \* fft2(q0): module-level fft2 asks for 1 thread
-                 /\ IF vreq.fp THEN UNCHANGED <<vmgr, vfftw, vcreated, vfftthreads>>
+                 /\ IF vreq.fp THEN UNCHANGED <<vmgr, vfftw, vcreated, vfftthreads, vwisload>>
                     ELSE Ensure(1) /\ vfftthreads' = Append(vfftthreads, vfftw')
                  /\ vpc' = "threads"
-                 /\ UNCHANGED <<vthreads, vnumba, vcompiled, vreq, vkernel, vhist, vres>>
+                 /\ UNCHANGED <<vthreads, vnumba, vcompiled, vreq, vkernel, vhist, vres, vwis>>
 
 ThreadSetup ==   /\ vpc = "threads"                                          \* numerical branch only
-                 /\ IF vreq.an THEN UNCHANGED <<vnumba, vmgr, vfftw, vcreated>>
+                 /\ IF vreq.an THEN UNCHANGED <<vnumba, vmgr, vfftw, vcreated, vwisload>>
                     ELSE IF vthreads > 1 THEN vnumba' = vthreads /\ Ensure(vthreads)
                     ELSE Ensure(1) /\ UNCHANGED vnumba
                  /\ vpc' = "kernel"
-                 /\ UNCHANGED <<vthreads, vcompiled, vreq, vkernel, vfftthreads, vhist, vres>>
+                 /\ UNCHANGED <<vthreads, vcompiled, vreq, vkernel, vfftthreads, vhist, vres, vwis>>
 
 Kernel ==        /\ vpc = "kernel"                                           \* two ivp_solver calls through parallelize
                  /\ IF vreq.an THEN UNCHANGED <<vcompiled, vkernel>>
                     ELSE vcompiled' = vcompiled \cup {vthreads > 1} /\ vkernel' = (vthreads > 1)
                  /\ vpc' = "transform"
-                 /\ UNCHANGED <<vthreads, vnumba, vmgr, vfftw, vcreated, vreq, vfftthreads, vhist, vres>>
+                 /\ UNCHANGED <<vthreads, vnumba, vmgr, vfftw, vcreated, vreq, vfftthreads, vhist, vres, vwis, vwisload>>
 
 FinalFFT ==      /\ vpc = "transform"                                        \* fft2 / ifft2 of the result: 1 thread again
                  /\ Ensure(1) /\ vfftthreads' = Append(vfftthreads, vfftw')
                  /\ vpc' = "return"
-                 /\ UNCHANGED <<vthreads, vnumba, vcompiled, vreq, vkernel, vhist, vres>>
+                 /\ UNCHANGED <<vthreads, vnumba, vcompiled, vreq, vkernel, vhist, vres, vwis>>
 
 \* the value computed: the request, which kernel variant ran, and with how many threads each FFT ran
 Return ==        /\ vpc = "return"
                  /\ vres' = <<vreq.id, vkernel, vfftthreads>>
                  /\ vpc' = "idle"
-                 /\ UNCHANGED <<vthreads, vnumba, vcompiled, vmgr, vfftw, vcreated, vreq, vkernel, vfftthreads, vhist>>
+                 /\ UNCHANGED <<vthreads, vnumba, vcompiled, vmgr, vfftw, vcreated, vreq, vkernel, vfftthreads, vhist, vwis, vwisload>>
 
 Next == \/ \E n \in ThreadCounts : SetThreads(n)
         \/ ResetFFT
+        \/ \E w \in {"missing", "ok", "corrupt"} : Wisdom(w)
         \/ \E r \in Requests : Begin(r)
         \/ SourceFFT \/ ThreadSetup \/ Kernel \/ FinalFFT \/ Return
 Spec == Init /\ [][Next]_rvars
@@ -99,6 +110,8 @@ Pure == vres[1] # 0 =>
             /\ \A i \in 1..Len(vres[3]) : vres[3][i] = 1
 ManagerSingleAfterSolve == (vpc = "idle" /\ vres[1] # 0) => (vmgr = 1 /\ vfftw = 1)
 KernelMatchesSetting == vpc = "transform" /\ ~vreq.an => (vkernel = (vthreads > 1) /\ (vthreads > 1) \in vcompiled)
+\* a wisdom file is only ever taken over when it is readable
+WisdomTolerant == [][vcreated' # vcreated => ((vwisload' = "loaded") <=> (vwis = "ok"))]_rvars
 NumbaFollowsSetting == (vpc = "kernel" /\ ~vreq.an /\ vthreads > 1) => vnumba = vthreads
 
 Emit == (vpc = "idle" /\ vres[1] # 0) =>
